@@ -17,7 +17,9 @@ META = {
             "indices -1..len+1 and 2^63, 2^64) executed as Scheme text in a real Vm in release AND debug profile, "
             "reading back every pool object after every operation as a graph with sharing labels; the same "
             "sequences are compared against an independent reference store with R7RS meanings (property oracle). "
-            "map, for-each and equal? are covered by model and oracle correspondence only (no theorem yet).",
+            "map, for-each and equal? are covered by model and oracle correspondence (no specification theorem yet); "
+            "equal? after its repair (dfd9e81, terminates on circular structure) is proved to give the outcome the "
+            "pinned function gave wherever that one returns, i.e. on every acyclic structure.",
     "note": "Trusted: Lean kernel; axioms propext, Classical.choice, Quot.sound; the hand-written model Marwood.Store is "
             "tied to the Rust code by differential testing only; prelude.scm definitions are transcribed by hand; the "
             "library procedures of prelude.scm are REGENERATED on every run as data (translate/prelude_procs.py -> "
@@ -42,6 +44,14 @@ META = {
             "call of its local count, which advances two pairs); `(map f)` / `(for-each f)` without a list are the arity error "
             "in model and code since fix 71c917c (map_without_list; prelude_image_map / _forEach cover the empty list of "
             "lists too); "
+            "`equal?` (fix dfd9e81: compare.rs threads a set of pairs of heap locations whose comparison has begun; the model "
+            "Store.equalSeen carries it as a list, the functions before the repair are kept as Store.Pinned.equal / "
+            "comparePair / compareVector): equal_agrees_pinned — for every store and arguments, if the pinned equal returns "
+            "with fuel n (a boolean, an error or a panic; it fails to return for every n exactly when the comparison runs "
+            "round a cycle for ever) the repaired one has the same outcome with every fuel >= n (Lemmas/EqualAgree.lean: fuel "
+            "monotonicity of the pinned loops, least fuel of an in-progress pair of locations; core Lean only); "
+            "equalB_agrees_pinned is the builtin's form; member / assoc call the repaired equal (prelude_image_member / "
+            "_assoc unchanged); circular inputs for equal? are exercised by C06 (equal_total there); "
             "readings of R7RS 'it is an error' cases are listed at the top of lean/Marwood/Spec/Store.lean "
             "(lazy traversal for memq..assoc/list-tail/list-ref/map, non-pair alist entries skipped, list-tail needs "
             "a pair or () as first argument); optional range arguments of vector->list / vector-fill! are not "
@@ -66,7 +76,7 @@ prelude_source_map1 prelude_source_map prelude_source_forEach prelude_sources_ag
 prelude_mem_family
 prelude_image_length prelude_image_memq prelude_image_memv prelude_image_member prelude_image_assq
 prelude_image_assv prelude_image_assoc prelude_image_anyNull prelude_image_map1 prelude_image_map
-prelude_image_forEach prelude_image_caar prelude_image_list""".split()]
+prelude_image_forEach prelude_image_caar prelude_image_list equal_agrees_pinned equalB_agrees_pinned""".split()]
 
 # sha256[:16] of the whitespace-normalised text of the prelude definitions transcribed in
 # lean/Marwood/Store/Prelude.lean (and ListOps.list for `list`)
